@@ -9,7 +9,7 @@
    checked for admissibility inside the model step and echoed. *)
 let variant =
   if Array.length Sys.argv > 3 then
-    (match Sys.argv.(3) with "defective" -> Defective | "sharedvrf" -> SharedVrf | _ -> Repaired)
+    (match Sys.argv.(3) with "defective" -> Defective | "sharedvrf" -> SharedVrf | "unguarded" -> Unguarded | _ -> Repaired)
   else Repaired
 
 let addr_of_tok (t : string) : addr option =
@@ -69,8 +69,9 @@ let pool_case toks impl =
   | lo :: hi :: e :: r ->
     let (ex, r) = take (int_of_string e) r in
     let ops = match r with ";" :: o -> o | _ -> failwith "pool: no ;" in
-    let (fam, lon) = unmap (addr_exn lo) in
-    let c = { p_fam = fam; p_lo = lon; p_hi = snd (unmap (addr_exn hi)); p_excl = List.map addr_exn ex } in
+    (match pool_geom variant (addr_exn lo) (addr_exn hi) (List.map addr_exn ex) with
+     | None -> ["hang"]      (* NewPoolAllocator does not return *)
+     | Some c ->
     let st = ref (pool_init c) in
     run_ops ops impl (fun op it ->
       let arg = rest op in
@@ -87,7 +88,7 @@ let pool_case toks impl =
       | Some k ->
         (match pool_call variant c !st k with
          | Some (st', o) -> st := st'; show_out o
-         | None -> raise (Stop ("INADMISSIBLE:" ^ (match k with CAlloc (_, obs) -> why_not c !st obs | _ -> "?")))))
+         | None -> raise (Stop ("INADMISSIBLE:" ^ (match k with CAlloc (_, obs) -> why_not c !st obs | _ -> "?"))))))
   | _ -> failwith "pool"
 
 (* ---------------------------------------------------------------- prefix delegation *)
@@ -124,8 +125,8 @@ let pd_case toks impl =
   match toks with
   | net :: nb :: pl :: ";" :: ops ->
     let c = { pd_net = n_of_str net; pd_nbits = n_of_str nb; pd_plen = n_of_str pl } in
-    if not (pd_valid c) then ["nilalloc"]
-    else if not (pd_wf c) then ["OUTSIDE-MODEL"]
+    if not (pd_new variant c) then ["nilalloc"]
+    else if not (N.ltb c.pd_net w128) then ["OUTSIDE-MODEL"]
     else begin
       let st = ref (pd_init c) in
       run_ops ops impl (fun op it ->
@@ -165,34 +166,17 @@ let rec n_range (a : n) (b : n) : n list = if N.leb a b then a :: n_range (N.add
 let fam_of_char = function '4' -> F4 | 'n' -> FNA | 'd' -> FPD | c -> failwith (Printf.sprintf "fam %c" c)
 let fam_tag = function F4 -> "4" | FNA -> "n" | FPD -> "d"
 
-(* the glue from configuration strings to an allocator geometry (what initV4Pools/initV6Pools compute
-   with netaddr/netip before calling NewPoolAllocator / NewPrefixAllocator) *)
-let reg_cfg fam (pgw : string) (net : string) (lo : string) (hi : string) (gw : string) (excl : (string * string) list)
-  : acfg option =
-  if net = "bad" then None else
-  let (nb, bits) = match split_on '/' net with [a; b] -> (addr_exn a, int_of_string b) | _ -> failwith "net" in
+(* configuration tokens -> the Coq pool_spec (strings are abstracted to empty / unparseable / address);
+   the geometry itself (default range, gateway and exclude expansion) is computed by spec_geom in Coq *)
+let cstr_of t = if t = "-" then SEmpty else if t = "junk" then SJunk else SAddr (addr_exn t)
+let spec_of fam (pgw : string) (net : string) (lo : string) (hi : string) (gw : string) (excl : (string * string) list)
+  : pool_spec =
+  let netv = if net = "bad" then None else
+      (match split_on '/' net with [a; b] -> Some (addr_exn a, n_of_str b) | _ -> failwith "net") in
   match fam with
-  | FPD ->
-    let c = { pd_net = snd nb; pd_nbits = n_of_int bits; pd_plen = n_of_str lo } in
-    if pd_valid c then (if pd_wf c then Some (APd c) else failwith "pd outside model") else None
-  | _ ->
-  let width = match fst nb with V4 -> 32 | V6 -> 128 in
-  let m = pow2 (width - bits) in
-  let first = N.mul (N.div (snd nb) m) m in
-  let last = N.sub (N.add first m) (n_of_int 1) in
-  let bound t dflt = if t = "-" then Some (fst nb, dflt) else if t = "junk" then None else Some (unmap (addr_exn t)) in
-  match bound lo (N.add first (n_of_int 1)), bound hi (N.sub last (n_of_int 1)) with
-  | Some (f1, l), Some (_, h) ->
-    let gwtok = if fam = FNA then gw else if gw = "-" then pgw else gw in
-    let gws = if gwtok = "-" || gwtok = "junk" then [] else [addr_exn gwtok] in
-    let ex = if fam = FNA then [] else
-        List.concat_map (fun (a, b) ->
-            if a = "junk" || b = "junk" then [] else
-            if b = "-" then [addr_exn a] else
-              let (fa, na) = addr_exn a and (fb, nb) = addr_exn b in
-              if fa <> fb then [] else List.map (fun x -> (fa, x)) (n_range na nb)) excl in
-    Some (APool { p_fam = f1; p_lo = l; p_hi = h; p_excl = gws @ ex })
-  | _ -> None
+  | FPD -> { sp_net = netv; sp_lo = SEmpty; sp_hi = SEmpty; sp_gw = SEmpty; sp_pgw = SEmpty; sp_plen = n_of_str lo; sp_excl = [] }
+  | _ -> { sp_net = netv; sp_lo = cstr_of lo; sp_hi = cstr_of hi; sp_gw = cstr_of gw; sp_pgw = cstr_of pgw; sp_plen = N0;
+           sp_excl = List.map (fun (a, b) -> (cstr_of a, cstr_of b)) excl }
 
 let show_gobs = function
   | OA a -> tok_of_addr a
@@ -216,12 +200,12 @@ let parse_profiles toks =
               | name :: prio :: vrf :: net :: lo :: hi :: gw :: ne :: r ->
                 let (ex, r) = take (2 * int_of_string ne) r in
                 let rec pairs = function a :: b :: t -> (a, b) :: pairs t | _ -> [] in
-                let p = { rp_name = n_of_str name; rp_prio = z_of_str prio; rp_vrf = n_of_str vrf;
-                          rp_cfg = reg_cfg fam pgw net lo hi gw (pairs ex) } in
+                let p = { rs_name = n_of_str name; rs_prio = z_of_str prio; rs_vrf = n_of_str vrf;
+                          rs_spec = spec_of fam pgw net lo hi gw (pairs ex) } in
                 pools (j-1) r (p :: acc)
               | _ -> failwith "pool spec" in
           let (ps, r) = pools (int_of_string nk) r [] in
-          profiles (k-1) r ({ rf_name = n_of_str pf; rf_fam = fam; rf_pools = ps } :: acc)
+          profiles (k-1) r ({ sf_name = n_of_str pf; sf_fam = fam; sf_pools = ps } :: acc)
         | _ -> failwith "profile spec" in
     profiles (int_of_string np) r []
   | _ -> failwith "reg"
@@ -322,8 +306,11 @@ let reg_step_show st k walk =
 let is_inadm s = String.length s > 11 && String.sub s 0 12 = "INADMISSIBLE"
 
 let reg_case toks impl =
-  let (pfs, r) = parse_profiles toks in
+  let (specs, r) = parse_profiles toks in
   let ops = match r with ";" :: o -> o | _ -> failwith "reg: no ;" in
+  match reg_config variant specs with
+  | None -> ["hang"]       (* newRegistry does not return *)
+  | Some pfs ->
   let st = ref (reg_init variant pfs) in
   let outs = run_ops ops impl (fun op it -> let (k, walk) = reg_op !st op it in reg_step_show st k walk) in
   let complete = List.length outs = List.length ops && not (List.exists is_inadm outs) in
@@ -337,8 +324,11 @@ let reg_case toks impl =
    no '@' tokens: pools of one family are disjoint in these cases, so walks are inferred *)
 let opt_key = function Some k -> tok_of_key k | None -> "-"
 let res_case toks impl =
-  let (pfs, r) = parse_profiles toks in
+  let (specs, r) = parse_profiles toks in
   let ops = match r with ";" :: o -> o | _ -> failwith "res: no ;" in
+  match reg_config variant specs with
+  | None -> ["hang"]
+  | Some pfs ->
   let st = ref (reg_init variant pfs) in
   run_ops ops impl (fun op it ->
     match op.[0] with
@@ -408,8 +398,9 @@ let () =
       let res =
         try
           (match tokens line with
-           | "pool" :: r -> String.concat " " (pool_case r it)
-           | "pd" :: r -> String.concat " " (pd_case r it)
+           | "pool" :: r | "xpool" :: r -> String.concat " " (pool_case r it)
+           | "pd" :: r | "xpd" :: r -> String.concat " " (pd_case r it)
+           | "xreg" :: r -> String.concat " " (reg_case r it)
            | "reg" :: r -> String.concat " " (reg_case r it)
            | "res" :: r -> String.concat " " (res_case r it)
            | _ -> "badline")
